@@ -18,7 +18,6 @@ import (
 
 	"github.com/gin-gonic/gin"
 	"github.com/gofiber/fiber/v2"
-	fiberrecover "github.com/gofiber/fiber/v2/middleware/recover"
 	"github.com/junioryono/godi/v4"
 	godichi "github.com/junioryono/godi/v4/chi"
 	godiecho "github.com/junioryono/godi/v4/echo"
@@ -602,7 +601,17 @@ func fiberAdapter(w *webWorld, p godi.Provider, cfg appCfg) func(string) (int, a
 	app := fiber.New(fiber.Config{DisableStartupMessage: true})
 	// the framework's recover middleware outermost: a handler panic must not kill the process,
 	// and the request's scope is then released by the framework (io.Closer user values)
-	app.Use(fiberrecover.New())
+	// (our own instead of the stock one, so that the harness sees which panics get this far)
+	escapedPanics := &sync.Map{}
+	app.Use(func(c *fiber.Ctx) (err error) {
+		defer func() {
+			if r := recover(); r != nil {
+				escapedPanics.Store(fid(c), r)
+				err = fiber.ErrInternalServerError
+			}
+		}()
+		return c.Next()
+	})
 	app.Use(func(c *fiber.Ctx) error {
 		c.SetUserContext(context.WithValue(context.Background(), reqKey{}, fid(c)))
 		return c.Next()
@@ -638,7 +647,10 @@ func fiberAdapter(w *webWorld, p godi.Provider, cfg appCfg) func(string) (int, a
 			return -1, nil
 		}
 		defer resp.Body.Close()
-		return resp.StatusCode, nil
+		if v, ok := escapedPanics.Load(id); ok {
+			escaped = v
+		}
+		return resp.StatusCode, escaped
 	}
 }
 
@@ -794,7 +806,7 @@ func judge(cfg appCfg, pl *plan, l *reqLog, status int, escaped any, providerClo
 					return ff("handle-recovery", fw+"/handler", "panic handler ran %d times", l.PanicH)
 				}
 			}
-			if panics && !cfg.Recovery && fw != "fiber" && escaped == nil {
+			if panics && !cfg.Recovery && escaped == nil {
 				return ff("handle-recovery", fw+"/swallowed", "panic was swallowed although recovery is off")
 			}
 			if !panics && l.PanicH != 0 {
@@ -804,7 +816,7 @@ func judge(cfg appCfg, pl *plan, l *reqLog, status int, escaped any, providerClo
 			if !l.HandlerRan {
 				return ff("handler-runs", fw, "the handler did not run on exit path %s (events %s)", pl.Exit, ev)
 			}
-			if pl.Exit == "handler-panic" && fw != "fiber" && escaped == nil {
+			if pl.Exit == "handler-panic" && escaped == nil {
 				return ff("handler-panic", fw+"/swallowed", "the scope middleware swallowed the handler's panic")
 			}
 		}
